@@ -30,7 +30,7 @@ ALL = ["fwd", "fwd_obj", "rev", "rev_obj", "diff_at", "diff_comp_at", "diff_comp
 ONEVAR = ["deriv", "deriv_num", "deriv_early", "deriv_after_asexp"]
 REP = ["fwd", "rev", "fwd_early", "diff_at_early", "fwd_after_asexp"]
 REP7 = REP + ["diff_comp_at", "diff_comp_at_early"]
-STRUCT = ["struct_partial_early_late", "struct_diff_early_late", "eq_diff_component_partial", "eq_diff_at_located", "synth_rev", "synth_diff_late"]
+STRUCT = ["struct_partial_early_late", "struct_diff_early_late", "eq_diff_component_partial", "eq_diff_component_partial_used", "eq_diff_at_located", "synth_rev", "synth_diff_late"]
 
 
 ROUNDING_PRONE = [[1.1, 2.3], [0.3, 0.7], [1.7, 0.9], [3, 7], [2, 2], [0.7, 1.3], [5, 3]]
@@ -56,7 +56,7 @@ def jobs(tier, seed):
         add(d, STRUCT, var="y")
     for d in [["NthRoot", ["Multiply", fam.X, fam.Y], 2], ["Logarithm", ["Multiply", fam.X, fam.Y], 3], ["Divide", ["NthRoot", fam.X, 3], fam.Y],
               ["Multiply", ["Exponential", fam.X], ["Sine", fam.Y]], ["Power", fam.X, fam.Y]]:
-        add(d, ["eq_diff_at_located", "eq_diff_component_partial"], var="x")
+        add(d, ["eq_diff_at_located", "eq_diff_component_partial", "eq_diff_component_partial_used"], var="x")
     m = c02.masked()
     for d in (m if tier == "thorough" else m[::3]):
         add(d, REP7, var="x")
@@ -90,6 +90,17 @@ def jobs(tier, seed):
               ["Logarithm", ["Multiply", fam.X, fam.Y]]]:
         for seq in ([["obj", ""], ["expr", "eval", "q"]], [["obj", ""], ["expr", "rev", "q"]], [["obj", "q"]], [["obj", "q"], ["obj", ""], ["expr", "fwd", "q"]]):
             add(d, ["rev", "fwd", "diff_comp_at", "fwd_early", "diff_at"], var="x", reuse_seq=seq)
+    # the main point first, the caches refilled at another point elsewhere, then every route at the main point
+    for d in fam.f1_shared(tier)[::3] + [["Multiply", ["Exponential", ["NthPower", fam.X, 2]], fam.Y], ["Logarithm", ["Multiply", fam.X, fam.Y]]]:
+        for pre in fam.sandwiches(d)[:4]:
+            add(d, ["rev", "fwd", "diff_at", "diff_comp_at", "fwd_early", "diff_at_early"], var="x", pre=pre)
+    # ANOTHER expression of the same shape (one constant differs) was differentiated symbolically before, in the same process: a table shared between
+    # expressions and keyed by a hash is explored on its colliding path (symbolic numbers hash alike); candidate assignments (x, c1, c2) are CPython's
+    # real numeric-hash collisions -1/-2
+    for mk in (lambda c: ["Multiply", c, ["NthPower", fam.X, 3]], lambda c: ["Add", ["NthPower", fam.X, 3], ["Multiply", c, fam.X]],
+               lambda c: ["Sine", ["Multiply", c, fam.X]], lambda c: ["Power", fam.X, c], lambda c: ["Divide", fam.X, ["Add", fam.X, c]]):
+        add(mk(fam.C(1)), ["rev", "fwd", "fwd_early", "fwd_after_asexp", "diff_comp_at_early", "deriv", "deriv_early", "synth_fwd"], var="x", supplied=["x"],
+            pre_variant=mk(fam.C(2)), candidates=[[2, -2, -1], [2, -1, -2], [3, -2.0, -1.0]])
     add(["Multiply", fam.V(1), fam.V(2)], ["fwd", "rev"], var="v1", twin="second+1")
     add(["Logarithm", fam.V(1)], ["fwd", "fwd_early"], var="v1", twin="second+1")
     for i, j in enumerate(js):
